@@ -61,24 +61,36 @@ def search(ctx, N):
         m = int(rng.integers(2, 10))
         n = int(rng.integers(0, m))
         kind = int(rng.choice([0, 1, 3, 4, 5]))
+        if t % 4 == 0:
+            kind = 5
         x = gen_nodes(rng, m, kind)
         x0 = float(rng.normal()) if t % 3 else float(x[rng.integers(0, m)])
+        # the same mathematical input in the container / number types a caller may use: integer-typed nodes (list of ints, integer ndarray)
+        # with a fractional x0, lists and tuples of floats, numpy scalars
+        x_in, how_in = x, 'float ndarray'
+        if kind == 5 and np.all(x == np.round(x)):
+            x_in, how_in = [([int(v) for v in x], 'list of Python ints'), (np.asarray(x, dtype=np.int64), 'int64 ndarray'), (np.asarray(x, dtype=np.int32), 'int32 ndarray')][(t // 4) % 3]
+        elif t % 5 == 1:
+            x_in, how_in = [float(v) for v in x], 'list of Python floats'
+        elif t % 5 == 2:
+            x_in, how_in = tuple(np.float64(v) for v in x), 'tuple of numpy floats'
+        x0_in = np.float64(x0) if t % 7 == 3 else x0
         try:
-            w = fd_weights_all(x, x0, n)
-            wn = fd_weights(x, x0, n)
+            w = fd_weights_all(x_in, x0_in, n)
+            wn = fd_weights(x_in, x0_in, n)
         except Exception as ex:   # noqa   n < len(x) is a valid request (n = 0 is the interpolation row)
             if ctx.violation('raises', 'fd_weights_all / fd_weights(x, x0, n=%d) with %d nodes raises %r although n < len(x)' % (n, m, ex), {'x': x.tolist(), 'x0': x0, 'n': n}):
                 return
             continue
-        ctx.count(1)
+        ctx.count(1, ('search', how_in))
         E = exact_weights(x, x0, n)
         for k in range(n + 1):
             scale = max(abs(e) for e in E[k]) or Fraction(1)
             err = max(abs(Fraction(float(w[k, v])) - E[k][v]) for v in range(m))
             if err > Fraction(1, 10 ** 7) * scale:
                 if ctx.violation('weights', 'fd_weights_all(x, x0, n=%d) row %d differs from the exact Lagrange-derivative weights by %.3g (row scale %.3g)' % (n, k, float(err), float(scale)),
-                                 {'x': x.tolist(), 'x0': x0, 'n': n, 'row': k, 'got': w[k].tolist(), 'exact': [float(e) for e in E[k]],
-                                  'how': 'numdifftools.fornberg.fd_weights_all(x, x0, n)'}):
+                                 {'x': x.tolist(), 'x0': x0, 'n': n, 'row': k, 'got': w[k].tolist(), 'exact': [float(e) for e in E[k]], 'nodes_given_as': how_in,
+                                  'how': 'numdifftools.fornberg.fd_weights_all(x, x0, n) with the nodes given as ' + how_in}):
                     return
                 break
         if not np.array_equal(wn, w[-1]):
